@@ -92,6 +92,43 @@ func init() {
 						data = nil
 					}
 					m = nil
+					if i%17 == 0 {
+						// a request the wrapper REJECTS (nothing selected, no such rule, a window that does not fit, an empty dag): whatever
+						// the wrapper does on that path, the instance is handed back once and the requests that follow do not share one
+						none, ghost := []string{}, []string{"zz"}
+						switch (i / 17) % 14 {
+						case 0:
+							gp.ExecuteSelectedRules(data, none)
+						case 1:
+							gp.ExecuteSelectedRulesConcurrent(data, none)
+						case 2:
+							gp.ExecuteSelectedRulesMixModel(data, none)
+						case 3:
+							gp.ExecuteSelectedRulesInverseMixModel(data, none)
+						case 4:
+							gp.ExecuteSelectedRulesWithControl(data, true, none)
+						case 5:
+							gp.ExecuteSelectedRulesInverseMixModel(data, ghost)
+						case 6:
+							gp.ExecuteSelectedNSortMConcurrent(1, 1, true, none, data)
+						case 7:
+							gp.ExecuteNSortMConcurrent(0, 1, true, data)
+						case 8:
+							gp.ExecuteDAGModel([][]string{}, data)
+						case 9:
+							gp.ExecuteSelectedWithSpecifiedEM(data, none)
+						case 10:
+							gp.ExecuteSelectedRulesWithControlAsGivenSortedName(data, true, none)
+						case 11:
+							gp.ExecuteSelectedNConcurrentMConcurrent(2, 2, true, ghost, data)
+						case 12:
+							gp.ExecuteSelectedRulesMixModel(data, ghost)
+						case 13:
+							gp.ExecuteSelectedNConcurrentMSort(1, 3, false, names[:2], data)
+						}
+						atomic.AddInt64(&calls, 1)
+						continue
+					}
 					switch i % 9 {
 					case 0:
 						_, m = gp.Execute(data, true)
